@@ -257,6 +257,45 @@ func Check(env *core.Env, rep *core.Report) *core.Result {
 		}
 	}
 
+	// (1c) blanks are bytes like any others: writes that consist of white space only (a blank between two
+	// words written separately, indentation written on its own, a line of blanks)
+	for k, pieces := range [][]string{
+		{"hello", " ", "world\n"},
+		{"\t", "indented\n", "    ", "more\n"},
+		{"a", "  ", "b", "\t", "c\n"},
+		{"   \n", "x\n", " ", "\n", "y"},
+		{" ", " ", " ", "z\n"},
+	} {
+		sk := &sink{}
+		t := task.FromCommands("true")
+		t.Name = "blanks"
+		o, err := output.NewTaskOutput(t, output.FormatPrefixed, sk, sk)
+		if err != nil {
+			core.Broken("NewTaskOutput: %v", err)
+		}
+		_ = o.Start()
+		w := o.Stdout()
+		var all []byte
+		for _, pc := range pieces {
+			_, _ = w.Write([]byte(pc))
+			all = append(all, pc...)
+		}
+		_ = o.Finish()
+		atomic.AddInt64(&evals, 1)
+		var concat []byte
+		for _, wr := range sk.writes {
+			if _, txt, ok := splitWrite(wr, []string{"blanks"}); ok {
+				concat = append(concat, txt...)
+			} else {
+				concat = append(concat, []byte("<not a prefixed line>")...)
+			}
+		}
+		if norm(concat) != norm(all) {
+			add("prefixed:bytes-lost-duplicated-or-leaked", fmt.Sprintf("writes %q (case %d: white space written on its own): after normalisation the sink has %q, the task wrote %q", pieces, k, norm(concat), norm(all)), map[string]interface{}{"sink": fmt.Sprintf("%q", sk.writes)})
+			break
+		}
+	}
+
 	// (2) raw format forwards bytes unchanged; long lines; concurrent writers with random chunkings
 	nConc := 60
 	if thorough {
